@@ -62,7 +62,29 @@ func c14EncodeAll(p *ana.Prog, r *ana.Result) {
 						if loop[s] || b == header {
 							continue
 						}
-						if reachesSuccessReturn(s, header) {
+						if !reachesSuccessReturn(s, header) {
+							continue
+						}
+						// `break` on an error that is tested again and returned right behind the loop
+						if t := errorArmBehind(b, s); t != nil && !reachesSuccessReturn(t, header) {
+							continue
+						}
+						// second opinion, path-sensitive: the facts of the exit edge (e.g. err != nil on a
+						// `break` whose error is returned behind the loop) may exclude every success return
+						si := 0
+						for k, t := range b.Succs {
+							if t == s {
+								si = k
+							}
+						}
+						hdr := header
+						q := &ana.Search{Fn: fn,
+							Stop: func(in ssa.Instruction) bool { return in.Block() == hdr },
+							Target: func(in ssa.Instruction) bool {
+								ret, ok := in.(*ssa.Return)
+								return ok && len(ret.Results) > 0 && mayBeNilConst(ret.Results[len(ret.Results)-1], 0)
+							}}
+						if reach, _ := q.RunAtEdge(ana.Edge{From: b, Succ: si}); reach {
 							bad = fmt.Sprintf("the loop is left at %s in front of a success return without the index being exhausted: the remaining %s fields are not encoded although EncodePacket reports success", p.Pos(lastPos(b)), kind)
 							break
 						}
@@ -179,4 +201,58 @@ func packCallsOf(fn *ssa.Function, q, kind string) []ssa.CallInstruction {
 		}
 	}
 	return out
+}
+
+// nilTest: v is `x != nil` / `x == nil`; returns x and whether the true arm means non-nil.
+func nilTest(v ssa.Value) (ssa.Value, bool, bool) {
+	bo, ok := v.(*ssa.BinOp)
+	if !ok || (bo.Op != token.NEQ && bo.Op != token.EQL) {
+		return nil, false, false
+	}
+	switch {
+	case ana.IsNilConst(bo.Y):
+		return bo.X, bo.Op == token.NEQ, true
+	case ana.IsNilConst(bo.X):
+		return bo.Y, bo.Op == token.NEQ, true
+	}
+	return nil, false, false
+}
+
+// errorArmBehind: the edge from -> to is taken with a value known to be non-nil, and to ends in a
+// nil test of that value (directly or through a phi that takes it on this edge): the only
+// successor of to that this path can continue with.
+func errorArmBehind(from, to *ssa.BasicBlock) *ssa.BasicBlock {
+	if len(from.Instrs) == 0 || len(to.Instrs) == 0 {
+		return nil
+	}
+	iff, ok := from.Instrs[len(from.Instrs)-1].(*ssa.If)
+	if !ok {
+		return nil
+	}
+	x, trueIsNonNil, ok := nilTest(iff.Cond)
+	if !ok || (from.Succs[0] == to) != trueIsNonNil || from.Succs[0] == from.Succs[1] {
+		return nil // the edge does not establish x != nil
+	}
+	iff2, ok := to.Instrs[len(to.Instrs)-1].(*ssa.If)
+	if !ok {
+		return nil
+	}
+	y, trueIsNonNil2, ok := nilTest(iff2.Cond)
+	if !ok {
+		return nil
+	}
+	if phi, isPhi := y.(*ssa.Phi); isPhi && phi.Block() == to {
+		for i, pr := range to.Preds {
+			if pr == from {
+				y = phi.Edges[i]
+			}
+		}
+	}
+	if y != x {
+		return nil
+	}
+	if trueIsNonNil2 {
+		return to.Succs[0]
+	}
+	return to.Succs[1]
 }
